@@ -52,6 +52,31 @@ func init() {
 			// "preparing or running one workflow does not change the behaviour of another prepared from the
 			// same text": a second preparation, before or during the runs, and some runs on it
 			c.SecondPrepare = rapid.SampledFrom([]string{"", "", "before", "during", "during"}).Draw(t, "second_prepare")
+			if c.SecondPrepare != "" && len(c.Program.Subs) > 0 && rapid.Bool().Draw(t, "other_sub_files") {
+				// the second preparation gets other contents under the same sub-workflow file names
+				c.Program2 = c.Program.Clone()
+				var alter func(p *ir.Program)
+				alter = func(p *ir.Program) {
+					for _, sub := range p.Subs {
+						for _, st := range sub.Steps {
+							if st.Kind == "plugin" {
+								replaced := false
+								for i := range st.In {
+									if st.In[i].Name == "s" {
+										st.In[i].E, replaced = ir.Lit("second"), true
+									}
+								}
+								if !replaced {
+									st.In = append(st.In, ir.F("s", ir.Lit("second")))
+								}
+								break
+							}
+						}
+						alter(sub)
+					}
+				}
+				alter(c.Program2)
+			}
 			if c.SecondPrepare != "" {
 				for i := range c.Clients {
 					if rapid.Bool().Draw(t, "on_second") {
